@@ -21,6 +21,7 @@ import (
 	"fmt"
 	"reflect"
 	"sort"
+	"sync"
 
 	corev1 "k8s.io/api/core/v1"
 	metav1 "k8s.io/apimachinery/pkg/apis/meta/v1"
@@ -42,6 +43,7 @@ type frameworkImpl struct {
 	kubeConfig                *restclient.Config
 	eventRecorder             events.EventRecorder
 	evictionLimiter           EvictionLimiter
+	evictLock                 sync.Mutex // serializes evictorProxy.Evict: AllowEvict, the eviction and Done are atomic
 	sharedInformerFactory     informers.SharedInformerFactory
 	getPodsAssignedToNodeFunc framework.GetPodsAssignedToNodeFunc
 	deschedulePlugins         []framework.DeschedulePlugin
